@@ -51,10 +51,18 @@ struct QLess {
 static bool g_self = false;
 static long g_self_fail = 0;
 
+// The file can be compiled as ONE translation unit (default) or as FOUR (-DC08_PART=0..3, linked together) to
+// compile the 30 (comparator, variant) instantiations in parallel; part 0 holds main().
+#ifdef C08_PART
+#define C08_MAIN (C08_PART == 0)
+#else
+#define C08_MAIN 1
+#endif
+
 template <typename Comp>
 static int show_val(int v) { return v; }
 template <>
-int show_val<QLess>(int v) { return v / 4; }
+inline int show_val<QLess>(int v) { return v / 4; }
 
 template <typename Comp>
 static void brute(std::vector<Seq>& seqs, diff_t rank, std::vector<diff_t>& cnt, Comp comp) {
@@ -89,7 +97,7 @@ struct ByKey {
     bool operator()(const KV& a, const KV& b) const { return base(a.key, b.key); }
 };
 // stateful comparator object without default constructor (counts its calls through a pointer)
-static long g_cmp_calls = 0;
+inline long g_cmp_calls = 0;
 template <typename Base>
 struct Stateful {
     Base base;
@@ -175,21 +183,62 @@ static const char* const VARIANT_NAME[NVARIANTS] = {
     "longlong/deque-iter/int/plain/const-iter", "uint/pointer/KV/stateful/ptr"};
 static long g_variant_calls[NVARIANTS];
 
-template <typename Comp>
-static Answer run_variant(int k, Tuple& T, long rank, Comp comp) {
-    ++g_variant_calls[k];
+template <int K, typename Comp>
+static Answer variant_k(Tuple& T, long rank, Comp comp) {
     ByKey<Comp> bk(comp);
-    switch (k) {
-    case 0: return run_one<long, 0, Comp>(iter_pairs(T.vi), rank, comp);
-    case 1: return run_one<std::size_t, 0, Comp>(iter_pairs(T.vi), rank, comp);
-    case 2: return run_one<int, 1, Comp>(ptr_pairs(T.vi), rank, comp);
-    case 3: return run_one<unsigned int, 0, Comp>(iter_pairs(T.di), rank, comp);
-    case 4: return run_one<long long, 2, Comp>(iter_pairs(T.vk), rank, bk);
-    case 5: return run_one<std::size_t, 0, Comp>(iter_pairs(T.dk), rank, Stateful<ByKey<Comp>>(bk, &g_cmp_calls));
-    case 6: return run_one<int, 0, Comp>(iter_pairs(T.vi), rank, Stateful<Comp>(comp, &g_cmp_calls));
-    case 7: return run_one<unsigned long, 1, Comp>(ptr_pairs(T.vk), rank, bk);
-    case 8: return run_one<long long, 2, Comp>(iter_pairs(T.di), rank, comp);
-    default: return run_one<unsigned int, 1, Comp>(ptr_pairs(T.vk), rank, Stateful<ByKey<Comp>>(bk, &g_cmp_calls));
+    if constexpr (K == 0) return run_one<long, 0, Comp>(iter_pairs(T.vi), rank, comp);
+    else if constexpr (K == 1) return run_one<std::size_t, 0, Comp>(iter_pairs(T.vi), rank, comp);
+    else if constexpr (K == 2) return run_one<int, 1, Comp>(ptr_pairs(T.vi), rank, comp);
+    else if constexpr (K == 3) return run_one<unsigned int, 0, Comp>(iter_pairs(T.di), rank, comp);
+    else if constexpr (K == 4) return run_one<long long, 2, Comp>(iter_pairs(T.vk), rank, bk);
+    else if constexpr (K == 5) return run_one<std::size_t, 0, Comp>(iter_pairs(T.dk), rank, Stateful<ByKey<Comp>>(bk, &g_cmp_calls));
+    else if constexpr (K == 6) return run_one<int, 0, Comp>(iter_pairs(T.vi), rank, Stateful<Comp>(comp, &g_cmp_calls));
+    else if constexpr (K == 7) return run_one<unsigned long, 1, Comp>(ptr_pairs(T.vk), rank, bk);
+    else if constexpr (K == 8) return run_one<long long, 2, Comp>(iter_pairs(T.di), rank, comp);
+    else return run_one<unsigned int, 1, Comp>(ptr_pairs(T.vk), rank, Stateful<ByKey<Comp>>(bk, &g_cmp_calls));
+}
+
+template <int CI> struct CmpOf;
+template <> struct CmpOf<0> { typedef std::less<int> type; };
+template <> struct CmpOf<1> { typedef std::greater<int> type; };
+template <> struct CmpOf<2> { typedef QLess type; };
+template <typename Comp> struct CmpIndex;
+template <> struct CmpIndex<std::less<int>> { static const int value = 0; };
+template <> struct CmpIndex<std::greater<int>> { static const int value = 1; };
+template <> struct CmpIndex<QLess> { static const int value = 2; };
+
+#define C08_ROW(X, CI) X(CI, 0) X(CI, 1) X(CI, 2) X(CI, 3) X(CI, 4) X(CI, 5) X(CI, 6) X(CI, 7) X(CI, 8) X(CI, 9)
+// instantiation (comparator CI, variant K) lives in part (CI*10+K) mod 4
+template <int P>
+Answer run_part(int ck, Tuple& T, long rank) {
+    switch (ck) {
+#define C08_CASE(CI, K)                                                                              \
+    case CI * 10 + K:                                                                                \
+        if constexpr ((CI * 10 + K) % 4 == P) return variant_k<K>(T, rank, typename CmpOf<CI>::type()); \
+        else break;
+        C08_ROW(C08_CASE, 0) C08_ROW(C08_CASE, 1) C08_ROW(C08_CASE, 2)
+#undef C08_CASE
+    }
+    abort();
+}
+#ifdef C08_PART
+extern template Answer run_part<0>(int, Tuple&, long);
+extern template Answer run_part<1>(int, Tuple&, long);
+extern template Answer run_part<2>(int, Tuple&, long);
+extern template Answer run_part<3>(int, Tuple&, long);
+template Answer run_part<C08_PART>(int, Tuple&, long);
+#endif
+
+#if C08_MAIN
+template <typename Comp>
+static Answer run_variant(int k, Tuple& T, long rank, Comp) {
+    ++g_variant_calls[k];
+    int ck = CmpIndex<Comp>::value * 10 + k;
+    switch (ck % 4) {
+    case 0: return run_part<0>(ck, T, rank);
+    case 1: return run_part<1>(ck, T, rank);
+    case 2: return run_part<2>(ck, T, rank);
+    default: return run_part<3>(ck, T, rank);
     }
 }
 
@@ -339,3 +388,4 @@ int main(int argc, char** argv) {
     if (g_self) fprintf(stderr, "selfcheck failures: %ld\n", g_self_fail);
     return 0;
 }
+#endif // C08_MAIN
